@@ -197,7 +197,7 @@ Print Assumptions ladder_is_spec.
    `( identifier` is tried as a type only for a type name *)
 Theorem primary_lookaheads_are_modelled :
   primary_ok ladder_cast_guard_maps ladder_cast_guard_assigns ladder_primary_isupper ladder_cast_operand
-             ladder_cast_starts ladder_postfix_tests = true.
+             ladder_cast_starts ladder_postfix_tests ladder_unary_kw_calls = true.
 Proof. exact (eq_refl true). Qed.
 Print Assumptions primary_lookaheads_are_modelled.
 
